@@ -115,6 +115,10 @@ class SchemaGen:
         for fn in LEAF_FIELD_NAMES:
             ty = self.wrap_out(N(r.choice(self.leaf_names)))
             self.sigs[fn] = {"name": fn, "type": ty, "args": self.rand_args() if r.random() < 0.3 else []}
+        if "Any" in self.leaf_names:
+            # a leaf that may become null only during output coercion, at non-null and list-item positions
+            self.sigs["tag"] = {"name": "tag", "type": NN(N("Any")), "args": []}
+            self.sigs["code"] = {"name": "code", "type": L(NN(N("Any"))), "args": []}
         for fn in OBJ_FIELD_NAMES:
             ty = self.wrap_out(N(r.choice(composite)), lists=fn in ("nodes", "friends", "parts", "grid"))
             self.sigs[fn] = {"name": fn, "type": ty, "args": self.rand_args() if r.random() < 0.25 else []}
@@ -243,7 +247,7 @@ class SchemaGen:
         if b == "String": return r.choice(["", "s", "héllo", "12"])
         if b == "Boolean": return r.random() < 0.5
         if b == "ID": return r.choice(["id", "7", 7])
-        if b == "Any": return r.choice(["s", 5, True, [1, "a"], {"k": 1}, "NULLME"])
+        if b == "Any": return r.choice(["s", 5, True, [1, "a"], {"k": 1}, "NULLME", "NULLME"])
         t = self.tdef(b)
         if t["kind"] == "enum": return r.choice(t["values"])
         raise ValueError(b)
